@@ -126,3 +126,11 @@ PROPS["C16"] = {
     "assumptions": TB + ["'reported' = non-zero exit status or a log line at ERROR level", "canaries use loopback echo targets"],
     "plan": [{"name": "config-table", "check": "c16", "bin": "osv-e2e", "shipped": True, "timeout": {"quick": 900, "thorough": 3600}}],
 }
+
+PROPS["C13"] = {
+    "level": "exploration",
+    "rule": "the real get_request_addr on a loopback socket pair with a scripted application that follows the protocol phases: the FULL product of methods {GET,POST,PUT,OPTIONS,HEAD} x 9 hosts (reg-names of 1..63 bytes, IPv4, bracketed IPv6 incl. embedded IPv4) x ports {absent,1,80,8080,65535} x 6 paths (with ':' and '://') x 5 queries (with '?', '/', 'http://') = 6750 absolute-URI requests, CONNECT x hosts x ports, header blocks up to 6 KiB, SOCKS5 CONNECT with IPv4 / IPv6 / domain (1..255 bytes), and the malformed / unsupported catalogue (origin-form, asterisk-form, missing scheme, empty host, bad ports, unbalanced brackets, CONNECT without port, SOCKS4, SOCKS5 BIND / unknown command / unknown ATYP / empty name / no acceptable method, TLS ClientHello, garbage); a sample of well-formed requests of each kind is additionally cut at EVERY byte position (two segments 25 ms apart) and sent byte by byte; oracle: independent request-target parser (refimpl::http, RFC 9112 / RFC 3986) and RFC 1928, exact leftover on the socket (payload only for SOCKS5/CONNECT, the untouched request for plain HTTP), protocol replies, refusal of everything malformed; evaluations = handshakes; distinct = distinct (request, segmentation)",
+    "exhaustive_note": "the request-target grammar product is enumerated completely; every single cut position is enumerated for 6 (quick) / 40 (thorough) requests of each kind",
+    "assumptions": TB + ["the application follows the protocol phases (waits for each reply before the next phase); eager pipelining across phases is not demanded", "an IPv6 host is compared modulo its brackets and textual form"],
+    "plan": [{"name": "local-handshake", "check": "c13"}],
+}
